@@ -127,10 +127,10 @@ def check_case(case):
         p2 = Panel(a=0.4, b=0.6, stack=[90. - t for t in stack], plyt=pan.PLYT, laminaprop=mat, m=case['n'], n=case['m'], mu=1500., **fl2)
         w1, l1 = spectra(p1, tri)
         w2, l2 = spectra(p2, (tri[1], tri[0], tri[2]))
-        if np.abs(w1 - w2).max() > 1e-8 * np.abs(w1).max():
+        if np.abs(w1 - w2).max() > 1e-6 * np.abs(w1).max():
             fails.append(fail('exchanging the roles of x and y changes the natural frequencies', sig=None, case=case, a=w1, b=w2))
         k = min(len(l1), len(l2))
-        if k and np.abs(l1[:k] - l2[:k]).max() > 1e-8 * np.abs(l1[:k]).max():
+        if k and np.abs(l1[:k] - l2[:k]).max() > 1e-6 * np.abs(l1[:k]).max():
             fails.append(fail('exchanging the roles of x and y changes the buckling multipliers', sig=None, case=case, a=l1, b=l2))
     elif kind == 'similarity':
         tri = TRIPLES[case['triple']]
@@ -143,9 +143,10 @@ def check_case(case):
             m2 = (mat[0] * e, mat[1] * e, mat[2], mat[3] * e, mat[4] * e, mat[5] * e)
             p2 = Panel(a=0.6 * s, b=0.4 * s, stack=stack, plyt=pan.PLYT * s, laminaprop=m2, m=case['m'], n=case['n'], mu=1500. * q, **fl)
             w2, l2 = spectra(p2, tri)
-            if np.abs(w2 - w1 * (e / q) / s ** 2).max() > 1e-8 * np.abs(w2).max():
-                fails.append(fail('similarity scaling (s,e,q) does not scale the frequencies by sqrt(e/q)/s', sig=None, case=case, seq=[s, e, q]))
+            relw = np.abs(w2 - w1 * (e / q) / s ** 2).max() / np.abs(w2).max()
+            if relw > 1e-6:
+                fails.append(fail('similarity scaling (s,e,q) does not scale the frequencies by sqrt(e/q)/s', sig=None, case=case, seq=[s, e, q], rel=float(relw)))
             k = min(len(l1), len(l2))
-            if k and np.abs(l2[:k] - l1[:k] * e * s).max() > 1e-8 * np.abs(l2[:k]).max():
+            if k and np.abs(l2[:k] - l1[:k] * e * s).max() > 1e-6 * np.abs(l2[:k]).max():
                 fails.append(fail('similarity scaling (s,e,q) does not scale the buckling line loads by e*s', sig=None, case=case, seq=[s, e, q]))
     return dict(fails=fails[:5], execs=2, transitions=1, nontrivial=1)
